@@ -3,7 +3,7 @@
    json.loads (json.dumps v) = v for such values is the external-library hypothesis validated by
    suite W-json / R-json (the implementation's file is parsed and compared with [json_write]). *)
 From Coq Require Import List Bool String ZArith.
-From FM Require Import Base.Result Model.FM Model.PFM Format.Json Proofs.JsonFacts Proofs.JsonVariant.
+From FM Require Import Base.Result Model.FM Model.PFM Format.Json Proofs.JsonFacts Proofs.C09Facts Proofs.JsonVariant Proofs.JsonExtra.
 Import ListNotations.
 Local Open Scope list_scope.
 
@@ -40,3 +40,22 @@ Print Assumptions C05_key_order.
 Example C05_key_order_nonvacuous : jperm' jx_doc jx_doc_perm /\ json_write jx_model = Ok jx_doc.
 Proof. exact (conj jx_perm_rel jx_doc_written). Qed.
 Print Assumptions C05_key_order_nonvacuous.
+
+(* keys the format does not define are ignored at every level (document, feature node, relation, attribute,
+   constraint object, constraint term; values of any depth) — JsonExtra.v also shows which conditional keys must
+   NOT be inserted (attributes, relations, card_min / card_max, value) *)
+Theorem C05_undefined_keys_anywhere : forall d d', jextra d d' -> json_read d = json_read d'.
+Proof. exact json_read_extra. Qed.
+Print Assumptions C05_undefined_keys_anywhere.
+(* an n-ary AND / OR / XOR term is read as the left fold of its operands; a nested first operand may be merged *)
+Theorem C05_nary_terms : forall fuel ty o x xs n ns, jnary_ty ty o -> json_parse_ctc fuel x = Ok n ->
+  Forall2 (fun y m => json_parse_ctc fuel y = Ok m) xs ns ->
+  json_parse_ctc (S fuel) (nary_term ty (x :: xs)) = Ok (fold_left (fun acc y => Model.Ast.bin o acc y) ns n).
+Proof. exact json_nary_fold. Qed.
+Print Assumptions C05_nary_terms.
+Theorem C05_nary_flattening_anywhere : forall d d', jflat d d' -> json_read d = json_read d'.
+Proof. exact json_read_flat. Qed.
+Print Assumptions C05_nary_flattening_anywhere.
+Example C05_variants_nonvacuous : jextra jx_doc jx_doc_extra /\ jflat jx_doc jx_doc_flat.
+Proof. exact (conj jx_extra_rel jx_flat_rel). Qed.
+Print Assumptions C05_variants_nonvacuous.
